@@ -443,6 +443,11 @@ def obligations(tier):
     from .c09 import BoundedOb
     from . import e2e_native
     obs.append(BoundedOb(f"{PID}/bounded/native survey: shapes, boundary ranks, orthonormality, core = projection, normalisation contract on every exit", "tensorly.decomposition:parafac+non_negative_parafac+non_negative_parafac_hals+tucker+tensor_train+tensor_ring+parafac2", lambda: e2e_native.c08(tier), dict(orders="2-3 (4 thorough)", rank_specifications="int, list, same, fraction", budgets="0, 1, 6, convergence stop"), "seed 0; tolerances 1e-8", pid=PID))
+    from .c09 import BoundedOb as _BOb
+    from . import e2e_native as _e2e
+    obs.append(_BOb(f"{PID}/bounded/native survey of secondary entry points: PARAFAC2 variants, TR-ALS, constrained / randomised CP, masks, sparse component, normalisation exits, CMTF, TT-matrix",
+                    "tensorly.decomposition:parafac2+tensor_ring_als+constrained_parafac+randomised_parafac+parafac+non_negative_tucker+non_negative_tucker_hals+coupled_matrix_tensor_3d_factorization+tensor_train_matrix",
+                    lambda: _e2e.extras(tier, PID), dict(entry_points=9, clauses="those of this property"), "seed 0; tolerances 1e-6 (errors), 1e-8 (structure); one shared run per process, failures filtered by property", pid=PID))
     return obs
 
 
